@@ -479,6 +479,25 @@ func (ev *intEval) split(t *Term, neg bool) error {
 	if t.Op != OpCmp {
 		return e4fail("branch condition %s is not a comparison", pretty(t))
 	}
+	// a sign test on the converted sample, float64(s) ⋈ 0: the conversion of an integer to a floating type is
+	// monotone and maps 0 to 0, so the test decides the same as s ⋈ 0
+	{
+		strip := func(x *Term) *Term {
+			if x.Op == OpConv && kindOf(x.Typ).Float && kindOf(x.Args[0].Typ).OK && !kindOf(x.Args[0].Typ).Float {
+				return x.Args[0]
+			}
+			return nil
+		}
+		zero := func(x *Term) bool {
+			f, ok := constFloat(x)
+			return ok && x.IsConst() && f == 0 && kindOf(x.Typ).Float
+		}
+		if ia := strip(t.Args[0]); ia != nil && zero(t.Args[1]) {
+			t = &Term{Op: OpCmp, Tok: t.Tok, Typ: t.Typ, Args: []*Term{ia, mkInt(0, ia.Typ)}}
+		} else if ib := strip(t.Args[1]); ib != nil && zero(t.Args[0]) {
+			t = &Term{Op: OpCmp, Tok: t.Tok, Typ: t.Typ, Args: []*Term{mkInt(0, ib.Typ), ib}}
+		}
+	}
 	a, err := ev.eval(t.Args[0])
 	if err != nil {
 		return err
